@@ -62,6 +62,10 @@ class FromGmat(Harness):
         if est in ("vanraden", "yang", "gw"):
             if est == "yang":
                 p = mk.real("p", (m,), lo=0, hi=1, lo_open=True, hi_open=True)
+            elif self.params.get("scalar_p"):
+                p0 = float(self.params.get("p0", 0.5))       # one reference frequency for every marker, passed as a python scalar
+                inp["p_scalar"] = p0
+                p = numpy.repeat(p0, m)
             else:
                 p = mk.real("p", (m,), lo=0, hi=1)
             inp["p"] = p
@@ -91,6 +95,8 @@ class FromGmat(Harness):
         g = _mk_gmat(kind, A.copy(), ploidy=pl)
         if self.params.get("grouped"):
             g.group_taxa()
+        symnp.NARROW_ACCUM[:] = []
+        parg = inp.get("p_scalar", inp.get("p"))
         if est == "molecular":
             if self.params.get("factory"):
                 from pybrops.popgen.cmat.fcty.DenseMolecularCoancestryMatrixFactory import DenseMolecularCoancestryMatrixFactory
@@ -102,13 +108,17 @@ class FromGmat(Harness):
         else:
             if self.params.get("factory"):
                 from pybrops.popgen.cmat.fcty.DenseVanRadenCoancestryMatrixFactory import DenseVanRadenCoancestryMatrixFactory
-                cm = DenseVanRadenCoancestryMatrixFactory().from_gmat(g, p_anc=inp["p"])
+                cm = DenseVanRadenCoancestryMatrixFactory().from_gmat(g, p_anc=parg)
             else:
-                cm = C.from_gmat(g, p_anc=inp["p"])
+                cm = C.from_gmat(g, p_anc=parg)
         out = dict(G=cm.mat, taxa=[str(t) for t in cm.taxa], taxa_grp=[int(x) for x in cm.taxa_grp], gtaxa=[str(t) for t in g.taxa],
                    K=cm.mat_asformat("kinship"), Cc=cm.mat_asformat("coancestry"), k00=cm.kinship(0, 0), c00=cm.coancestry(0, 0),
                    mx=cm.max(), mn=cm.min(), mean=cm.mean(), mxk=cm.max(format="kinship"), maxinb=cm.max_inbreeding(), maxinbk=cm.max_inbreeding(format="kinship"),
-                   grouped=(cm.is_grouped_taxa(), g.is_grouped_taxa()), after=g.mat)
+                   grouped=(cm.is_grouped_taxa(), g.is_grouped_taxa()), after=g.mat, narrow=list(symnp.NARROW_ACCUM))
+        if mk.concrete and est == "molecular":
+            # concrete counterpart of the accumulator obligation: a line homozygous at 130 markers has coancestry 2 with itself
+            big = numpy.ones((2, 1, 130), dtype="int8") if kind == "phased" else numpy.full((1, 130), pl, dtype="int8")
+            out["bigdiag"] = float(C.from_gmat(_mk_gmat(kind, big, ploidy=pl)).mat[0, 0])
         if est in ("vanraden", "gw", "yang") and n >= 2:
             # permutation / sub-selection of taxa with a fixed reference
             perm = list(range(n))[::-1]
@@ -126,6 +136,12 @@ class FromGmat(Harness):
         X = _dos(A, kind, n, m)
         G = out["G"]
         P.prove(tuple(G.shape) == (n, n), "shape")
+        # sums over markers must not be accumulated in an 8/16-bit integer (numpy's matmul keeps the operand type: wraps from 128 markers on)
+        if P.concrete:
+            if "bigdiag" in out:
+                P.prove(abs(out["bigdiag"] - 2.0) < 1e-9, "marker-sums-do-not-wrap (130 homozygous markers)", detail="self-coancestry %r" % out["bigdiag"])
+        else:
+            P.prove(not out["narrow"], "marker-sums-not-accumulated-in-an-8/16-bit-integer", detail="%s" % (out["narrow"][:2],))
         P.prove(out["taxa"] == out["gtaxa"], "taxon-labels-of-the-source")
         P.prove(out["grouped"][0] == out["grouped"][1], "group-metadata-of-the-source")
         p = cells(inp["p"]) if "p" in inp else None
@@ -347,6 +363,12 @@ def obligations(tier):
         obs.append(h)
     obs.append(FromGmat(est="molecular", kind="unphased", n=2, m=1, ploidy=2, factory=True, grouped=True))
     obs.append(FromGmat(est="vanraden", kind="unphased", n=2, m=1, ploidy=2, factory=True))
+    # one reference frequency for all markers, passed as a scalar
+    obs.append(FromGmat(est="vanraden", kind="unphased", n=2, m=2, ploidy=2, scalar_p=True))
+    obs.append(FromGmat(est="vanraden", kind="unphased", n=2, m=2, ploidy=2, scalar_p=True, factory=True))
+    if tier == "thorough":
+        obs.append(FromGmat(est="vanraden", kind="phased", n=2, m=3, ploidy=2, scalar_p=True))
+        obs.append(FromGmat(est="yang", kind="unphased", n=2, m=1, ploidy=2, scalar_p=True))
     for n in (1, 2):
         obs.append(InverseSummaries(n=n))
     for est in (("molecular", "vanraden") if tier == "quick" else ("molecular", "vanraden", "yang", "gw")):
